@@ -130,6 +130,17 @@ func (b *byzActor) voteAt(h *Node, rs *cstypes.RoundState, idx int) {
 			if v := b.signVote(H, r, typ, id, size, idx); v != nil {
 				cl.c.Fault("byz-equivocating-vote")
 				cl.send(b.n.idx, h.idx, &cs.VoteMessage{Vote: v}, "byz-vote")
+				// a (possibly false) majority claim for that block makes the node
+				// track the conflicting vote per block; re-deliveries of it must
+				// still count the validator once
+				if !id.IsZero() && cl.sched.Bool(1, 2) {
+					cl.c.Fault("byz-maj23-claim")
+					cl.send(b.n.idx, h.idx, &cs.VoteSetMaj23Message{Height: H, Round: r, Type: typ, BlockID: id}, "byz-maj23")
+					for k := 0; k < 1+cl.sched.Int(3); k++ {
+						cl.c.Fault("byz-vote-redelivered")
+						cl.send(b.n.idx, h.idx, &cs.VoteMessage{Vote: v}, "byz-vote-again")
+					}
+				}
 			}
 		}
 	case "selective":
